@@ -21,6 +21,10 @@ func newPublishQOS1Transaction(client *Client, msgID uint16) *publishQOS1Transac
 				client.groupCtx, client.cfg.RetryDelay, client.cfg.RetryCount,
 				func(lastPkt interface{}) error {
 					tLog.Debug("Resend.")
+					// A retransmitted PUBLISH carries DUP (PUBREL has no DUP flag).
+					if dupPkt, ok := lastPkt.(pkts.PacketWithDUP); ok {
+						dupPkt.SetDUP(true)
+					}
 					return client.send(lastPkt.(pkts.Packet))
 				},
 				func() {
